@@ -288,7 +288,7 @@ SerClauses(e, G) ==
   LET s == e.ret  c == prov[e.arg].cl  Gp == prov[e.arg].g  D == Denote(s) IN
   (IF Known(strOf, c) /\ strOf[c] # s THEN {"C01:string-differs-between-descriptions"} ELSE {})
   \cup (IF prov[e.arg].pstr # "" /\ prov[e.arg].pstr # s THEN {"C03:not-a-fixed-point-of-the-pipeline"} ELSE {})
-  \cup LayoutClauses(s, G)
+  \cup LayoutClauses(s, Gp)          \* the string the pipeline emits for the molecule that was handed to it
   \cup (IF ~D.acc THEN {"C03:emitted-string-is-not-accepted-by-the-grammar(" \o D.why \o ")"}
         ELSE (IF D.n # Gp.n THEN {"C03:atom-count"} ELSE {})
              \cup (IF Cardinality(D.bonds) # NumEdges(Gp) THEN {"C03:bond-count"} ELSE {})
@@ -490,6 +490,23 @@ SameText(e) ==
         /\ sers' = IF merge THEN {<<IF p[1] = cb THEN ca ELSE p[1], p[2], p[3]>> : p \in sers} ELSE sers
   /\ UNCHANGED <<objs, root, canonOf, rootPart, strs, mols, results>>
 
+\* two texts state DIFFERENT molecules (decided on what the specification decodes: other element / mass / radical counts or another
+\* number of bonds); the pipeline must not give them one string (C02 at the level of files)
+MolBag(D) == LET s == SetToSortSeq({<<ZOf[D.atoms[i].sym], D.atoms[i].mass, D.atoms[i].rad, i>> : i \in 1..Len(D.atoms)},
+                                   LAMBDA x, y : SeqLess(<<x[1], x[2], x[3], x[4]>>, <<y[1], y[2], y[3], y[4]>>))
+             IN [i \in 1..Len(s) |-> <<s[i][1], s[i][2], s[i][3]>>]
+DistinctText(e) ==
+  /\ e.op = "distincttext" /\ Known(mols, e.a) /\ Known(mols, e.b)
+  /\ LET A == mols[e.a]  B == mols[e.b]
+         differ == A.ok /\ B.ok /\ ElementKnown(A) /\ ElementKnown(B)
+                   /\ (MolBag(A) # MolBag(B) \/ Cardinality({<<b[1], b[2]>> : b \in A.bonds}) # Cardinality({<<b[1], b[2]>> : b \in B.bonds}))
+         both == Known(objs, e.a) /\ Known(objs, e.b)
+     IN viol' = viol
+          \cup (IF differ THEN {} ELSE {"H:texts-are-not-known-to-state-different-molecules"})
+          \cup (IF differ /\ both /\ Known(strOf, cls[e.a]) /\ Known(strOf, cls[e.b]) /\ strOf[cls[e.a]] = strOf[cls[e.b]]
+                  THEN {"C02:different-molecules-share-a-string"} ELSE {})
+  /\ UNCHANGED <<objs, cls, root, prov, strOf, canonOf, rootPart, sers, strs, mols, results>>
+
 \* graph_to_molfile(arg) -> text     (lines without the timestamp line 2)
 WriteClauses(e, G) ==
   LET D == DecodeV3000(e.lines)  n == G.n IN
@@ -515,7 +532,7 @@ WriteText(e) ==
   /\ UNCHANGED <<objs, cls, root, prov, strOf, canonOf, rootPart, sers, strs, mols, results>>
 
 Step(e) == \/ Input(e) \/ Derive(e) \/ Mutate(e) \/ Touch(e) \/ SameMol(e) \/ Canonicalize(e) \/ Automorphism(e) \/ Serialize(e)
-           \/ Raised(e) \/ Completed(e) \/ Emitted(e) \/ Parse(e) \/ ReadText(e) \/ SameText(e) \/ WriteText(e) \/ StringIn(e) \/ Respell(e) \/ Result(e) \/ Permute(e)
+           \/ Raised(e) \/ Completed(e) \/ Emitted(e) \/ Parse(e) \/ ReadText(e) \/ SameText(e) \/ DistinctText(e) \/ WriteText(e) \/ StringIn(e) \/ Respell(e) \/ Result(e) \/ Permute(e)
 
 \* ------------------------------------------------------------------ the properties, as state predicates
 Clean(prefix) == \A c \in viol : SubSeq(c, 1, Len(prefix)) # prefix
